@@ -92,7 +92,7 @@ var sigAlgs = func() [][2]int { //nolint:gochecknoglobals
 	out := [][2]int{}
 	for s := 0; s < 1<<16; s++ {
 		var alg signaturehash.Algorithm
-		if alg.Unmarshal(tls.SignatureScheme(s)) == nil && alg.Signature <= 0xff {
+		if alg.Unmarshal(tls.SignatureScheme(s)) == nil { // RSA-PSS schemes included
 			out = append(out, [2]int{int(alg.Hash), int(alg.Signature)})
 		}
 	}
@@ -116,11 +116,8 @@ func GenClientKeyExchange(r *v.Rand, kx int) *handshake.MessageClientKeyExchange
 		m.IdentityHint = r.Bytes(r.Len(20))
 	}
 	if kx&4 != 0 {
-		n := r.Pick(1, 32, 65, 1+r.Intn(255))
-		if kx&2 != 0 && r.Chance(15) {
-			n = 0
-		}
-		m.PublicKey = r.Bytes(n)
+		// opaque point<1..255>: an empty key is refused by Unmarshal (Marshal could emit it)
+		m.PublicKey = r.Bytes(r.Pick(1, 32, 65, 255, 1+r.Intn(255)))
 	}
 
 	return m
@@ -271,7 +268,9 @@ func Codecs() []*v.Codec {
 		}, nil))
 	for _, kx := range []int{0, 2, 4, 6} {
 		kx := kx
-		corpus := [][]byte{{0, 0}, {1, 170, 187, 204}, {0, 1, 9, 1, 170, 187}}
+		// regression inputs of the repaired decoder (1fc4918): 0000 used to index past the end
+		// under ECDHE-PSK; 01aa00 / 01aabbcc used to take everything after the length byte
+		corpus := [][]byte{{0, 0}, {1, 170, 0}, {1, 170, 187, 204}, {0, 1, 9, 1, 170, 187}, {0}, {0, 0, 0}}
 		out = append(out, msgCodec("client_key_exchange", 13, []int{kx},
 			func() handshake.Message {
 				return &handshake.MessageClientKeyExchange{KeyExchangeAlgorithm: types.KeyExchangeAlgorithm(kx)}
